@@ -43,6 +43,9 @@ type C16Case struct {
 	// Before, when set, is an earlier registration of the same service provider: end to end, a request is first sent under it,
 	// then the provider is re-registered with ACS and the request under test follows. Only the current registration counts.
 	Before []C16Entry `json:"earlier_registration,omitempty"`
+	// ReqIndex: end to end, the request also carries AssertionConsumerServiceIndex (the documented selection is a function of
+	// the metadata and the requested binding alone)
+	ReqIndex string `json:"request_acs_index,omitempty"`
 }
 
 func xsTrue(s string) bool { return s == "true" || s == "1" }
@@ -243,6 +246,10 @@ func TestC16Enum(t *testing.T) {
 
 // c16OtherBinding is the "other" binding of the enumeration: a URI that differs from HTTP-POST only by letter case. URIs are
 // compared exactly, so for the statement it is simply a binding that is neither POST nor Redirect nor Artifact.
+// c16IndexesWide: the enumerated indexes plus other lexical forms of xs:unsignedShort (leading zeros, several digits): the value
+// is what counts
+var c16IndexesWide = []string{"0", "1", "2", "7", "65535", "010", "08", "09", "0100", "007", "9", "10", "99", "100", "00"}
+
 const c16OtherBinding = "urn:oasis:names:tc:SAML:2.0:bindings:HTTP-Post"
 
 func genC16Case(t *rapid.T) C16Case {
@@ -251,10 +258,13 @@ func genC16Case(t *rapid.T) C16Case {
 	for i := 0; i < n; i++ {
 		c.ACS = append(c.ACS, C16Entry{
 			Binding:   rapid.SampledFrom(c16Bindings).Draw(t, "binding"),
-			Index:     rapid.SampledFrom(c16Indexes).Draw(t, "index"),
+			Index:     rapid.SampledFrom(c16IndexesWide).Draw(t, "index"),
 			IsDefault: rapid.SampledFrom(c16Defaults).Draw(t, "isDefault"),
 			Location:  "https://sp.example/acs/" + strconv.Itoa(i),
 		})
+	}
+	if rapid.IntRange(0, 2).Draw(t, "reqindex") == 0 {
+		c.ReqIndex = rapid.SampledFrom([]string{"0", "1", "2", "7", "65535", "3"}).Draw(t, "reqindexv")
 	}
 	if rapid.IntRange(0, 2).Draw(t, "reregistered") == 0 {
 		for i := 0; i < rapid.IntRange(1, 3).Draw(t, "nbefore"); i++ {
@@ -296,6 +306,9 @@ func c16EndToEnd(c C16Case) *ev.Violation {
 		a := spsim.NewAuthnReq(id, sp.EntityID)
 		if c.Requested != "" {
 			a.ProtocolBinding = c.Requested
+		}
+		if c.ReqIndex != "" {
+			a.ACSIndex = c.ReqIndex
 		}
 		hr, _, err := spsim.Encode(spec.IdP.Route("sso"), xt.Write(a.Tree(plainStyle), plainStyle.W), spsim.Transport{Binding: "post", Plus: true, Encoding: A, RelayState: "rs"}, nil)
 		if err != nil {
